@@ -200,6 +200,7 @@ func init() {
 			g.ex.clock++
 			return g.ex.clock
 		},
+		"GID": func(g *G, fr *frame, a []value) value { return g.id },
 		"SetPreempt": func(g *G, fr *frame, a []value) value {
 			g.ex.preemptBound = a[1].(int)
 			return nil
